@@ -10,11 +10,12 @@ import loadrun as L
 from props import c06
 
 PROPERTY = 'C05'
-LEAN_MODULES = ['YatimlModel.Props.C05', 'YatimlModel.Props.C05RoundTrip', 'YatimlModel.Props.C05Plain']
+LEAN_MODULES = ['YatimlModel.Props.C05', 'YatimlModel.Props.C05RoundTrip', 'YatimlModel.Props.C05Plain',
+                'YatimlModel.Props.C05Objects']
 THEOREMS = ['YatimlModel.C05.' + t for t in [
     'C05_quoted_strings_stay_strings', 'C05_ints_reread_as_int', 'C05_floats_reread_as_float',
     'C05_bools_nulls_reread', 'C05_enum_roundtrip', 'C05_stringlike_roundtrip', 'C05_dash_under_inverse',
-    'C05_plain_data_roundtrip']] + [
+    'C05_plain_data_roundtrip', 'C05_simple_objects_roundtrip']] + [
     'YatimlModel.C05RT.' + t for t in ['C05_node_roundtrip', 'C05_described_node_loads', 'C05_scalars_described',
                                        'C05_string_roundtrip', 'C05_represent_enum', 'C05_represent_stringlike', 'C05_represent_list', 'C05_represent_dict', 'C05_represent_object', 'C05_described_value_unique', 'C05_dump_injective', 'C05_ints_described', 'C05_int_roundtrip', 'ex_represented', 'ex_described',
                                        'C05_example_roundtrip']] + ['YatimlModel.RT_load', 'YatimlModel.constructInt_int']
